@@ -35,6 +35,8 @@ type ev struct {
 	Ec    int     `json:"ec"` // QR level 1=L 2=M 3=Q 4=H
 	Rd    string  `json:"rd"` // own | multi
 	Th    int     `json:"th"` // TRY_HARDER
+	Se    int     `json:"se"` // Codabar: pass RETURN_CODABAR_START_END (the answer keeps the guard characters)
+	Cb    int     `json:"cb"` // pass NEED_RESULT_POINT_CALLBACK (no effect on the answer; the 1-D retry logic copies the hints when it is set)
 	Al    int     `json:"al"` // ITF: pass ALLOWED_LENGTHS = [length of the content] (a hint the row decoder itself consumes)
 	H     int     `json:"h"`  // requested height of a 1-D rendering
 	Mg    int     `json:"mg"` // QR: MARGIN hint (quiet zone in modules), -1 = the writer's default
@@ -254,6 +256,18 @@ func hints(e *ev) map[gozxing.DecodeHintType]interface{} {
 			h = map[gozxing.DecodeHintType]interface{}{}
 		}
 		h[gozxing.DecodeHintType_ALLOWED_LENGTHS] = []int{len(e.C)}
+	}
+	if e.Se == 1 {
+		if h == nil {
+			h = map[gozxing.DecodeHintType]interface{}{}
+		}
+		h[gozxing.DecodeHintType_RETURN_CODABAR_START_END] = true
+	}
+	if e.Cb == 1 {
+		if h == nil {
+			h = map[gozxing.DecodeHintType]interface{}{}
+		}
+		h[gozxing.DecodeHintType_NEED_RESULT_POINT_CALLBACK] = gozxing.ResultPointCallback(func(gozxing.ResultPoint) {})
 	}
 	return h
 }
